@@ -245,6 +245,15 @@ def make_case(pid: str, seed: int, tier: str) -> ProdCase:
             base = gen_producer(rnd, zc, ref0, rnd.randint(1, 2), filters=0.2, ops=('group',))
             k = rnd.choice(['offset', 'earliest', 'latest', 'jitter'])
             case.specs[i + 1] = gen_producer(rnd, zc, ref0, 2, ops=(k,), filters=0.0) if False else wrap_op(rnd, zc, k, base)
+        # directed: a shift by several periods of a dense underlying trigger, and a narrow time window on the shifted
+        # trigger itself: most candidates are rejected, the first admitted one must not be passed over
+        step = rnd.choice([15 * NS_MIN, 30 * NS_MIN, NS_HOUR])
+        h0 = rnd.randrange(1, 21)
+        window = ('time', h0 * NS_HOUR, h0 * NS_HOUR + rnd.choice([1, 2, 3]) * step)
+        shift = rnd.randint(2, 9) * step + rnd.choice([0, 0, 5 * NS_MIN])
+        dense = ('interval', (ref0 // NS_HOUR) * NS_HOUR - 3 * NS_DAY, step, None)
+        case.specs[3] = rnd.choice([('offset', make_exact(shift), window, dense),
+                                    ('jitter', make_exact(shift), make_exact(shift + NS_S), window, dense)])
     elif pid == 'C16':
         # unsatisfiable / contradictory filters at every level, plus satisfiable controls
         unsat = [('all', [('dow', [1]), ('dow', [2])]), ('all', [('dom', [31]), ('moy', [2])]),
@@ -302,6 +311,13 @@ def wrap_op(rnd: random.Random, zc: ZoneCtx, k: str, base, narrow: bool = False)
     if narrow and rnd.random() < 0.35:
         flt = rnd.choice([('not', ('dow', [rnd.randint(1, 7)])), ('dow', sorted(rnd.sample(range(1, 8), 5))),
                           ('not', ('dom', [rnd.randint(1, 28)]))])
+    elif not narrow and k in ('offset', 'jitter') and rnd.random() < 0.4:
+        # C13: the operation itself carries a filter; candidates it rejects must not make the search skip occurrences
+        h0 = rnd.randrange(0, 20)
+        flt = rnd.choice([('dow', sorted(rnd.sample(range(1, 8), rnd.randint(2, 5)))),
+                          ('time', h0 * NS_HOUR, (h0 + rnd.randint(2, 4)) * NS_HOUR),
+                          ('not', ('time', h0 * NS_HOUR, (h0 + rnd.randint(2, 4)) * NS_HOUR)),
+                          ('not', ('dom', sorted(rnd.sample(range(1, 29), 6))))])
     if k == 'offset':
         if narrow:
             off = rnd.choice([-1, 1]) * rnd.choice([per // 7, per // 3, per // 2 - 1, NS_S, 17 * NS_MIN])
